@@ -90,6 +90,8 @@ def alphabet(kind):
     else:
         A.append(("connect(c0b1c0->c1b0c0,Iono)", lambda m: connect(m.cell(0).branch(1).comp(0), m.cell(1).branch(0).comp(0), IonotropicSynapse())))
         A.append(("set(gS)@IonotropicSynapse", lambda m: m.IonotropicSynapse.set("IonotropicSynapse_gS", 5e-4)))
+        A.append(("clamp(Iono_s)@IonotropicSynapse.edge(0)", lambda m: m.IonotropicSynapse.edge(0).clamp("IonotropicSynapse_s", jnp.ones(3) * 0.4, verbose=False)))
+        A.append(("record(Iono_s)@IonotropicSynapse", lambda m: m.IonotropicSynapse.record("IonotropicSynapse_s", verbose=False)))
     return A
 
 
@@ -157,7 +159,8 @@ def wf(m):
             inds = np.asarray(m.external_inds[k])
             if np.asarray(m.externals[k]).ndim != 2 or np.asarray(m.externals[k]).shape[0] != len(inds):
                 bad.append(f"externals[{k}] has {np.asarray(m.externals[k]).shape} for {len(inds)} indices")
-            if len(inds) and (inds.min() < 0 or inds.max() >= N):
+            lim = len(edges) if (len(edges) and k in edges.columns and k not in nodes.columns) else N
+            if len(inds) and (inds.min() < 0 or inds.max() >= lim):
                 bad.append(f"external_inds[{k}] refers to rows that do not exist")
     for g, inds in m.groups.items():
         inds = np.asarray(inds)
@@ -493,7 +496,7 @@ def main(tier):
         ref = oc[0] == "ok" and not oc[1]["error"] and any(r["status"] != "proved" for r in oc[1]["results"])
         ck.canaries.append((f"{can[0]}: {can[2][:50]!r} -> {can[3][:50]!r}", ref))
     ck.bounded = {"evaluations": evals, "distinct_nontrivial": cases, "exhaustive": tier != "quick", "refused_operations": refused, "states_simulated_symbolically": len(states),
-                  "rule": "alphabet of 31 view x operation letters (insert/delete_channel of HH, Na, K, Km, CaT, CaL on various views; set; add_to_group; record; delete_recordings; stimulate; clamp; delete_stimuli (view and module); delete_clamps; "
+                  "rule": "alphabet of 31 (cell) / 33 (network) view x operation letters (insert/delete_channel of HH, Na, K, Km, CaT, CaL on various views; set; add_to_group; record; delete_recordings; stimulate; clamp; delete_stimuli (view and module); delete_clamps; "
                           "make_trainable; delete_trainables; init_states; set_ncomp (cell) / connect and set on a synapse view (network)) on an irregular cell (ncomp [2,1,3]) and a 2-cell network with 2 synapse types; all histories of depth 1 and 2, depth 3 with stride 37 (quick) / all (thorough); "
                           "wf evaluated after every accepted operation (evaluations); a case = a distinct fully accepted history"}
     for f in ("jaxley.modules.base.Module.insert", "jaxley.modules.base.Module.delete_channel", "jaxley.modules.base.Module.set", "jaxley.modules.base.Module.set_ncomp", "jaxley.modules.base.Module.add_to_group",
